@@ -416,6 +416,34 @@ pub fn run_c03(tier: Tier) -> Report {
     }
     r.run("residual-clip", &cases);
 
+    // ---- large pictures: more than 255 macroblocks, more than 255 macroblocks per row
+    let mut cases = vec![];
+    let mut big: Vec<(u16, u16)> = vec![(352, 288), (4112, 16)];
+    if tier.thorough() {
+        big.extend([(16, 4112), (704, 576)]);
+    }
+    for &(w, h) in &big {
+        let (mbw, mbh) = mb_grid(w, h);
+        let reference = noise_intra(shdr(w, h, 0, 0, 6, 0), seed);
+        let specs: Vec<Spec> = (0..mbw * mbh)
+            .map(|i| match i % 11 {
+                0 | 5 => Spec::NotCoded,
+                3 => Spec::Intra,
+                7 => Spec::Inter4V([VECS[i % 8], VECS[(i + 3) % 8], VECS[(i + 5) % 8], VECS[(i + 6) % 8]], i % 2 == 0),
+                _ => Spec::Inter(VECS[(i / 3) % 8], i % 4 == 1),
+            })
+            .collect();
+        let mut p = Pic { hdr: shdr(w, h, 1, 1, 6, 0), mbs: mbs_for(&specs, mbw, false, true) };
+        fix_last_flags(&mut p);
+        let mut p2 = p.clone();
+        p2.mbs.truncate(mbw * mbh - mbw / 2 - 1); // early end: the tail must be copied from the reference
+        if let Hdr::S(h2) = &mut p2.hdr {
+            h2.tr = 2;
+        }
+        cases.push(vec![reference, p, p2]);
+    }
+    r.run("large-pictures", &cases);
+
     r.finish();
     rep.set_rule(
         "P/D pictures as syntax trees over LCG-noise reference pictures, decoded by H263State and by the reference decoder (median prediction, wrap, chroma vector, bilinear half-sample, edge clamp, residual add/clip): all 7^n macroblock-kind assignments on 5 grids; every differential (64x64) on single-macroblock pictures of each size class and on the interior macroblock of 48x48 x 3 residual kinds; truncation after every macroblock and at every byte; no-reference rejection; residual clipping; \
